@@ -8,7 +8,7 @@ for s in $SEEDS; do
   if ! git -C /repo diff --quiet; then echo "/repo working tree is dirty: refusing"; exit 3; fi
   git -C /repo apply /verif/seeded/$s/patch.diff || { echo "$s: patch does not apply"; continue; }
   for tier in quick thorough; do
-    ./check $prop --tier $tier > .logs/seed_$s.$tier.txt 2>&1; rc=$?
+    VERIF_NO_EVIDENCE=1 ./check $prop --tier $tier > .logs/seed_$s.$tier.txt 2>&1; rc=$?
     v=$(grep -c "^VIOLATION" .logs/seed_$s.$tier.txt)
     echo "$s [$prop $tier] exit=$rc violations=$v : $(grep -E '^(FAIL|VIOLATION)' .logs/seed_$s.$tier.txt | head -3 | cut -c1-200 | tr '\n' ' ')"
     if [ $rc -eq 1 ]; then break; fi
